@@ -513,12 +513,20 @@ func TestConnectionLimits(t *testing.T) {
 		u1, u2 := newUpstream(rt, true), newUpstream(rt, true)
 		defer u1.release()
 		defer u2.release()
+		// upstream 1 may have a second peer (every proxied connection goes to both); an outage then hits that second
+		// peer only, so that the dial attempt fails half-way, after the first peer has been connected
+		dial1, outage := []string{u1.addr}, u1
+		if rapid.Bool().Draw(rt, "upstream1HasTwoPeers") {
+			u1b := newUpstream(rt, true)
+			defer u1b.release()
+			dial1, outage = []string{u1.addr, u1b.addr}, u1b
+		}
 		cfg := map[string]any{"load_balancing": map[string]any{"selection": map[string]any{"policy": "first"}}}
 		if viaPassive {
-			cfg["upstreams"] = []map[string]any{{"dial": []string{u1.addr}}, {"dial": []string{u2.addr}, "max_connections": 1000}}
+			cfg["upstreams"] = []map[string]any{{"dial": dial1}, {"dial": []string{u2.addr}, "max_connections": 1000}}
 			cfg["health_checks"] = map[string]any{"passive": map[string]any{"unhealthy_connection_count": m}}
 		} else {
-			cfg["upstreams"] = []map[string]any{{"dial": []string{u1.addr}, "max_connections": m}, {"dial": []string{u2.addr}}}
+			cfg["upstreams"] = []map[string]any{{"dial": dial1, "max_connections": m}, {"dial": []string{u2.addr}}}
 		}
 		h, cancel := loadProxy(rt, cfg)
 		defer cancel()
@@ -550,10 +558,10 @@ func TestConnectionLimits(t *testing.T) {
 			if countU1 < m && rapid.IntRange(0, 4).Draw(rt, "failedDial") == 0 {
 				// an outage of upstream 1: a connection attempt that ends in a refused dial must not leave a trace
 				// in the connection count
-				u1.stopListening()
+				outage.stopListening()
 				err, ok := connect(h, false).wait(3 * time.Second)
-				history = append(history, fmt.Sprintf("u1 refuses, connect->%v", err))
-				if !ok || !u1.up(rt) {
+				history = append(history, fmt.Sprintf("a peer of upstream 1 (%d peers) refuses, connect->%v", len(dial1), err))
+				if !ok || !outage.up(rt) {
 					for _, o := range open {
 						_ = o.release()
 					}
